@@ -64,6 +64,12 @@ CLAIMED["C19"] = dict(
     technique="CBMC function contracts (dfcc) on extracted C of PyImath headers with assumed library models, cvc5",
     ref="6/C19")
 
+CLAIMED["C20"] = dict(
+    text="Proof for the frame/partition clause of the generic kernels: VectorizedOperation2<Op, WritableDirectAccess, ReadOnlyDirectAccess, ReadOnlyDirectAccess>::execute(start,end) is extracted with Op::apply an uninterpreted pure function and its loop is closed by a loop contract (invariant with ghost index, assigns, decreases) for arrays of any length up to 10^6: result[k] == apply(arg1[k],arg2[k]) exactly for start <= k < end, every other result position and both arguments untouched, the loop terminates. match_lengths raises exactly for mismatched vector lengths. Bounded (length <= 8, labelled, not counted): the masked-argument and masked-result kernels through the accessors' index maps, and the partition lemma on the real kernel (two sub-ranges in either order == one call over the union).",
+    note="Trusted: clang AST of the PyImath headers, cxx2c + library models (as C19), cbmc loop-contract instrumentation, cvc5. The loop contract is inserted into the extracted C by the check (must-fire on the single for-loop). Concurrency is NOT modelled: disjoint write frames and read-only arguments are what is established; WorkerPool/dispatchTask, the export tables, the GIL macro and the hand-written Task structs are not covered.",
+    technique="CBMC loop contracts + dfcc on extracted C of the PyImath kernel with an uninterpreted element operation; bounded unwinding stand-ins for masked kernels",
+    ref="6/C20")
+
 NA = {
 }
 
